@@ -532,6 +532,81 @@ let swev_main (path : Stdlib.String.t) =
   close_in ic;
   print_string (Buffer.contents out)
 
+
+(* ---------- C03: s-expression layer ---------- *)
+let bytes_of_hex (h : Stdlib.String.t) : n list =
+  List.init (String.length h / 2) (fun i -> n_of_int (int_of_string ("0x" ^ String.sub h (2 * i) 2)))
+let hex_of_bytes (l : n list) : Stdlib.String.t =
+  String.concat "" (List.map (fun b -> Printf.sprintf "%02x" (int_of_n b)) l)
+let sx_pos (p : pos) = Printf.sprintf "%d.%d.%d" (int_of_n p.p_abs) (int_of_n p.p_line) (int_of_n p.p_lb)
+let sx_span (s : span) = Printf.sprintf "[%s-%s]" (sx_pos s.s_start) (sx_pos s.s_end)
+let rec sx_tree (b : Buffer.t) (e : sexpr) =
+  match e with
+  | Atom (t, s) -> Buffer.add_string b (Printf.sprintf "A%s:%s " (sx_span s) (hex_of_bytes t))
+  | SList (l, s) ->
+    Buffer.add_string b (Printf.sprintf "L%s( " (sx_span s));
+    List.iter (sx_tree b) l;
+    Buffer.add_string b ") "
+let sx_show (ignore_ws : bool) (text : n list) : Stdlib.String.t =
+  match unwrap (parse_ ignore_ws text) with
+  | Inl e ->
+    let k = (match e.pe_msg with
+      | MUnexpectedClose -> "unexpected-close" | MUnclosedOpen -> "unclosed-open" | MNotInList -> "not-in-list"
+      | MLex EUntermString -> "unterm-string" | MLex EUntermMultiString -> "unterm-mstring"
+      | MLex EUntermComment -> "unterm-comment") in
+    Printf.sprintf "ERR %s %s" k (sx_span e.pe_span)
+  | Inr (tops, metas) ->
+    let b = Buffer.create 256 in
+    Buffer.add_string b "OK ";
+    List.iter (fun (l, s) -> sx_tree b (SList (l, s))) tops;
+    Buffer.add_string b "| ";
+    List.iter (fun m ->
+      let (k, t, s) = (match m with MLine (t, s) -> ("ML", t, s) | MBlock (t, s) -> ("MB", t, s) | MWs (t, s) -> ("MW", t, s)) in
+      Buffer.add_string b (Printf.sprintf "%s%s:%s " k (sx_span s) (hex_of_bytes t))) metas;
+    Buffer.contents b
+let sx_head_is (l : sexpr list) (name : Stdlib.String.t) =
+  match l with
+  | Atom (t, _) :: _ -> hex_of_bytes t = hex_of_bytes (List.map (fun c -> n_of_int (Char.code c)) (List.of_seq (String.to_seq name)))
+  | _ -> false
+let run_sx (_dump : Stdlib.String.t list) (hist : Stdlib.String.t) (out : Buffer.t) =
+  let t = mk_toks hist in
+  ignore (next t);
+  let text = bytes_of_hex (if t.pos < Array.length t.arr then next t else "") in
+  (try
+    Buffer.add_string out (Printf.sprintf "P1 %s\n" (sx_show true text));
+    Buffer.add_string out (Printf.sprintf "P0 %s\n" (sx_show false text));
+    (match unwrap (parse_ true text) with
+     | Inl _ -> ()
+     | Inr (tops, _) ->
+       List.iter (fun (l, s) -> Buffer.add_string out (Printf.sprintf "D %s\n" (hex_of_bytes (fmt_sexpr (SList (l, s)))))) tops;
+       let defvars = List.filter (fun (l, _) -> sx_head_is l "defvar") tops in
+       if defvars <> [] then begin
+         let res = List.fold_left (fun acc (l, _) ->
+           match acc with
+           | VOk vs -> unwrap (parse_vars_items vs (List.tl l))
+           | r -> r) (VOk []) defvars in
+         (match res with
+          | VOther -> Buffer.add_string out "V OTHER\n"
+          | VErr VDuplicate -> Buffer.add_string out "V DUP\n"
+          | VErr VSelfRef -> Buffer.add_string out "V SELF\n"
+          | VOk vs ->
+            Buffer.add_string out "V OK\n";
+            let fuel = nat_of_int (List.length vs + 1) in
+            let qi = ref 0 in
+            List.iter (fun (l, _) ->
+              if sx_head_is l "q" then
+                List.iter (fun e ->
+                  let a = (match unwrap (atom_res fuel vs e) with Some t -> hex_of_bytes t | None -> "None") in
+                  let ls = (match unwrap (list_res fuel vs e) with
+                    | Some xs -> hex_of_bytes (List.concat_map (fun x -> fmt_sexpr x @ [n_of_int 59]) xs)
+                    | None -> "None") in
+                  Buffer.add_string out (Printf.sprintf "Q %d atom=%s list=%s\n" !qi a ls);
+                  incr qi) (List.tl l)) tops)
+       end)
+  with
+  | Model_panic s -> Buffer.add_string out (Printf.sprintf "PANIC sx: %s\n" s)
+  | Model_fuel -> Buffer.add_string out "PANIC sx: OUT-OF-FUEL\n")
+
 (* ---------- C11 key tables ---------- *)
 let hex_decode (h : Stdlib.String.t) : Stdlib.String.t =
   String.init (String.length h / 2) (fun i -> Char.chr (int_of_string ("0x" ^ String.sub h (2 * i) 2)))
@@ -568,6 +643,7 @@ let () =
   | _ :: "ksim" :: path :: _ -> sim_main run_ksim path
   | _ :: "ovr" :: path :: _ -> sim_main run_ovr path
   | _ :: "pinfo" :: path :: _ -> sim_main run_seqtab path
+  | _ :: "sx" :: path :: _ -> sim_main run_sx path
   | _ :: "keys" :: _ -> keys_main ()
   | _ :: "swev" :: path :: _ -> swev_main path
   | _ -> prerr_endline "usage: driver <lsim FILE|keys>"; exit 2
